@@ -231,6 +231,8 @@ pub fn run_op(fam: &str, name: &str, input: &Value) -> Value {
                 let sched: Vec<crate::aread::Step> = input["sched"].as_array().unwrap().iter().map(crate::aread::Step::from_json).collect();
                 crate::aread::run_script(&frames, input["cut"].as_u64().unwrap() as usize, input["maxlen"].as_u64().unwrap() as u32, &sched)
             }
+            #[cfg(all(feature = "alloc", feature = "half"))]
+            "display" => crate::disp::fmt(&get_bytes(&input["buf"])),
             #[cfg(feature = "std")]
             "sink" => crate::sinks::raw(name, input),
             #[cfg(feature = "io")]
